@@ -305,3 +305,11 @@ func (c *Ctx) FindingCount() int {
 	}
 	return n
 }
+
+// NShardsOr1 returns the number of shards (at least 1).
+func (c *Ctx) NShardsOr1() int {
+	if c.NShards < 1 {
+		return 1
+	}
+	return c.NShards
+}
